@@ -70,6 +70,11 @@ def goUint (i : Int) : Option Nat := if i < 0 then none else some i.toNat
 /-- `panic(...)` -/
 def goPanic {α} : Option α := none
 
+/-- `bigints.ContainsSorted(n, xs)`: `sort.Search` with a closure is outside the translated fragment; the
+    primitive is the binary-search model of `AC/Helpers.lean` (compared with the code on every C19 run and
+    proved to decide membership on sorted lists, `containsSorted_iff`) -/
+def bigintsContainsSorted (n : Int) (xs : List Int) : Bool := P.Helpers.containsSorted n xs
+
 /-- `new(big.Int).Mul(x, y)` -/
 def bMul (x y : Int) : Int := x * y
 
